@@ -3,6 +3,8 @@
 The namespace follows a fixed *schema* (the same names are always bound, with
 drawn variations), the AST refers to names of the schema, so every reference
 resolves unless the generator deliberately uses an undefined name."""
+import keyword
+
 from hypothesis import strategies as st
 
 # near-tag literal fragments (DESIGN §3)
@@ -37,6 +39,10 @@ def base_ns(draw=None, probes=0, hooks=False):
     ns = dict(
         va='⟦A⟧', vb='⟦B⟧', vn=7, vz='', vnone=None,
         ct=1, cf=0,
+        # names spelled like tag and continuation words
+        **{'else': '⟦ELSE⟧', 'elif': '⟦ELIF⟧', 'except': '⟦EXCEPT⟧',
+           'finally': '⟦FINALLY⟧', 'in': '⟦IN⟧', 'if': '⟦IF⟧',
+           'var': '⟦VAR⟧', 'end': '⟦END⟧', 'try': '⟦TRY⟧'},
         # names that are proper prefixes of other names of the schema
         v='⟦V⟧', c=0, s=dict(t='list', items=['⟦s⟧']),
         fa=dict(t='rec', id='fa', ret='⟦FA⟧'),
@@ -226,7 +232,8 @@ def var_node(cfg, scope):
         choices.append(st.builds(
             lambda n: dict(k='var', ref=dict(r='expr', e=E('name', n=n)),
                            opts=[]),
-            st.sampled_from([n for n in names if '-' not in n])))
+            st.sampled_from([n for n in names if '-' not in n and
+                             not keyword.iskeyword(n)])))
         choices.append(st.builds(
             lambda n, o: dict(k='var', ref=dict(r='name', n=n), opts=o),
             st.sampled_from(names + ['cu']),
